@@ -31,7 +31,7 @@ CONSTANTS Kind,        \* "sd1" | "sd2" | "sdhc"
           A41Set,      \* how many ACMD41 rounds the card may need
           Retries,     \* acquire_retries
           LoopBud,     \* budget of the CMD8 / ACMD41 loops
-          BugNoStopWait, BugIgnoreR1, BugNoTerminate, BugKeepType, BugNoStatus
+          BugNoStopWait, BugIgnoreR1, BugNoTerminate, BugKeepType, BugNoStatus, BugPreCount
 
 VARIABLES card, busy, dq, mem, h, faults, gh, ret, log
 vars == <<card, busy, dq, mem, h, faults, gh, ret, log>>
@@ -49,7 +49,7 @@ Init ==
   /\ busy = "no" /\ dq = "none"
   /\ mem = [b \in 0..(NB - 1) |-> b]
   /\ h = [pc |-> "idle", ct |-> "none", op |-> "none", blk |-> 0, n |-> 0, i |-> 0, tries |-> 0, bud |-> 0, ctmp |-> "none",
-          a41h |-> 0, res |-> "ok", got |-> <<>>, nops |-> 0, used |-> 0, acq |-> FALSE, excuse |-> FALSE]
+          a41h |-> 0, res |-> "ok", got |-> <<>>, nops |-> 0, used |-> 0, acq |-> FALSE, excuse |-> FALSE, mem0 |-> [b \in 0..(NB - 1) |-> b]]
   /\ faults = MaxFaults
   /\ gh = [ill |-> {}, lost |-> FALSE, spi |-> FALSE, must |-> FALSE, flip |-> FALSE, acqfail |-> FALSE]
   /\ ret = NoRet
@@ -100,8 +100,11 @@ Apply(idx, o, hh) ==
   /\ card' = o.card /\ busy' = o.busy /\ dq' = o.dq
   /\ faults' = faults - o.used
   /\ gh' = (LET g == Ghost(o) IN IF idx = 0 /\ o.k = "r1" /\ o.r1 = 1 THEN [g EXCEPT !.lost = FALSE] ELSE g)
+  /\ mem' = (LET k == IF o.k = "r1" /\ o.f = "none" THEN PreErased(card, [idx |-> idx, acmd |-> card.app], o.r1) ELSE 0
+                  b == o.card.cur
+              IN [x \in DOMAIN mem |-> IF x >= b /\ x < b + k THEN -7 ELSE mem[x]])       \* pre-erase announced by ACMD23
   /\ log' = Append(log, IF o.k = "wnb" THEN <<"wnb", idx>> ELSE <<"cmd", idx, o.f>>)    \* no frame goes out when the card stays busy
-  /\ UNCHANGED <<mem, ret>>
+  /\ UNCHANGED ret
 
 \* the call returns
 Return(hh, res) == [hh EXCEPT !.pc = "ret", !.res = res]
@@ -116,8 +119,8 @@ StartOf(op, n) == CASE op = "read" -> IF n = 1 THEN "r17" ELSE "r18"
 Begin(op, b, n) ==
   /\ h.pc = "idle" /\ h.nops < MaxOps
   /\ h' = [h EXCEPT !.op = op, !.blk = b, !.n = n, !.i = 0, !.res = "ok", !.got = <<>>, !.used = 0,
-                    !.excuse = (busy = "inf" \/ gh.lost \/ card.a41need > LoopBud \/ b + n > NB),
-                    !.acq = (h.ct = "none" /\ op # "mark_uninit"),
+                    !.excuse = (busy = "inf" \/ gh.lost \/ card.a41need > LoopBud \/ b + n > NB \/ b >= NB),
+                    !.acq = (h.ct = "none" /\ op # "mark_uninit"), !.mem0 = mem,
                     !.tries = Retries,
                     !.ct = IF op = "mark_uninit" THEN "none" ELSE h.ct,
                     !.pc = IF op = "mark_uninit" THEN "ret" ELSE IF h.ct = "none" THEN "a0" ELSE StartOf(op, n)]
@@ -128,7 +131,7 @@ Begin(op, b, n) ==
 
 Call ==
   \/ Begin("card_type", 0, 0) \/ Begin("num_blocks", 0, 0) \/ Begin("mark_uninit", 0, 0)
-  \/ \E b \in 0..NB, n \in 1..MaxN : (b + n <= NB \/ b = NB) /\ (Begin("read", b, n) \/ Begin("write", b, n))
+  \/ \E b \in 0..NB, n \in 0..MaxN : (b + n <= NB \/ b = NB) /\ (Begin("read", b, n) \/ Begin("write", b, n))
 
 Ret ==
   /\ h.pc = "ret"
@@ -214,7 +217,7 @@ R18 == /\ h.pc = "r18"
        /\ LET a == ArgOf(h.ct, h.blk) IN
           \E o \in Issue(18, a[1], a[2]) :
             Apply(18, o, IF o.k # "r1" THEN Return(h, ErrOf(o, 18))
-                         ELSE IF o.r1 # 0 /\ ~BugIgnoreR1 THEN Return(h, "ReadError") ELSE [h EXCEPT !.pc = "rmdata", !.i = 0])
+                         ELSE IF o.r1 # 0 /\ ~BugIgnoreR1 THEN Return(h, "ReadError") ELSE [h EXCEPT !.pc = IF h.n = 0 THEN "r12" ELSE "rmdata", !.i = 0])
 RMData == /\ h.pc = "rmdata"
           /\ \E s \in DataOutcomes :
                ReadStep(s, s[2], IF GoodData(s[1])
@@ -275,12 +278,12 @@ W13 == /\ h.pc = "w13"
 W55 == /\ h.pc = "w55"
        /\ \E o \in Issue(55, 0, 0) : Apply(55, o, IF o.k # "r1" THEN Return(h, ErrOf(o, 55)) ELSE [h EXCEPT !.pc = "w23"])
 W23 == /\ h.pc = "w23"
-       /\ \E o \in Issue(23, 0, h.n) : Apply(23, o, IF o.k # "r1" THEN Return(h, ErrOf(o, 23)) ELSE [h EXCEPT !.pc = "w25"])
+       /\ \E o \in Issue(23, 0, IF BugPreCount THEN 2 * h.n ELSE h.n) : Apply(23, o, IF o.k # "r1" THEN Return(h, ErrOf(o, 23)) ELSE [h EXCEPT !.pc = "w25"])
 W25 == /\ h.pc = "w25"
        /\ LET a == ArgOf(h.ct, h.blk) IN
           \E o \in Issue(25, a[1], a[2]) :
             Apply(25, o, IF o.k # "r1" THEN Return(h, ErrOf(o, 25))
-                         ELSE IF o.r1 # 0 /\ ~BugIgnoreR1 THEN Return(h, "WriteError") ELSE [h EXCEPT !.pc = "wmwait", !.i = 0])
+                         ELSE IF o.r1 # 0 /\ ~BugIgnoreR1 THEN Return(h, "WriteError") ELSE [h EXCEPT !.pc = IF h.n = 0 THEN "wstop" ELSE "wmwait", !.i = 0])
 \* wait_not_busy before each block
 Wait(pcOk, hhFail) ==
   /\ h' = IF busy = "inf" THEN hhFail ELSE [h EXCEPT !.pc = pcOk]
@@ -327,6 +330,8 @@ ReadExact == Returned /\ ret.op = "read" /\ ret.res = "ok" /\ ~gh.flip        \*
                => ret.got = [i \in 1..ret.n |-> mem[ret.blk + i - 1]]
 WriteExact == Returned /\ ret.op = "write" /\ ret.res = "ok"
                => \A i \in 0..(ret.n - 1) : mem[ret.blk + i] = Pay(ret.k, i)
+\* ... and nowhere else (a write that succeeds changes its own blocks only; any other call changes none)
+NowhereElse == Returned /\ ret.res = "ok" => \A b \in DOMAIN mem : (ret.op = "write" /\ b >= ret.blk /\ b < ret.blk + ret.n) \/ mem[b] = h.mem0[b]
 KindRight == h.ct # "none" /\ h.pc \notin {"afin"} => h.ct = Kind
 HealthyOk == Returned /\ ret.used = 0 /\ ~ret.excuse => ret.res = "ok"
 FaultIsError == Returned /\ gh.must => ret.res # "ok"                         \* C13
